@@ -31,6 +31,7 @@ func config(name string) pmc.Cfg {
 		base := config(name[:i])
 		base.Name, base.MaxView = name, c.MaxView
 		base.Eager = strings.HasSuffix(name, "e") // "K2@v0e": eager adversary (no lazy-delivery reduction)
+		base.Sloppy = strings.HasSuffix(name, "s") // "K1@v1s": consumer validators accept a missing block
 		return base
 	}
 	switch name {
@@ -83,6 +84,7 @@ var menus = map[string]string{
 	"M6":   "PC XT",
 	"M7":   "PC OUT",
 	"MALL": "PC PP0 VC NV NVF NVW NVH XT OUT",
+	"MN":   "PC NVN PP0",
 	"M5":   "PC PPV", // only used to (re)generate the witness of the recorded stand-alone-PREPREPARE finding
 }
 
@@ -91,6 +93,17 @@ func plan(prop, tier string) []run {
 	var r []run
 	add := func(cfg, menu string, d int, budget time.Duration) {
 		r = append(r, run{cfg: cfg, menu: menu, prims: menus[menu], d: d, budget: budget, maxV: 2})
+	}
+	if prop == "C13" || prop == "C17" {
+		return nil // only the two-height enumeration below serves these two properties in this engine
+	}
+	if prop == "C12" {
+		// protocol-level robustness: a consumer whose validator accepts a missing block; proposals without
+		// blocks (stand-alone and inside NEW_VIEW) must never crash a node later on
+		for _, c := range []string{"K1@v1s", "K2@v1s", "K3b@v1s"} {
+			r = append(r, run{cfg: c, menu: "MN", prims: menus["MN"], budget: 20 * time.Second, maxV: 1})
+		}
+		return r
 	}
 	if prop == "C05" {
 		n, cap := 400, 4000
@@ -309,6 +322,28 @@ func main() {
 			}
 		}
 	}
+	// two-height future-cache paths (C03, C08, C13, C17): small exhaustive enumeration on one real node
+	if *prop == "C03" || *prop == "C08" || *prop == "C13" || *prop == "C17" || *prop == "ALL" {
+		for _, cname := range []string{"K1", "K3"} {
+			th := pmc.TwoHeight(config(cname).C)
+			runs = append(runs, map[string]interface{}{"config": cname, "two_height_cases": th.Cases, "real_steps": th.Steps, "cases_reaching_height_2": th.Reached2})
+			states += th.Cases
+			trans += th.Steps
+			if len(samples) < 5 {
+				samples = append(samples, map[string]interface{}{"two_height": th.Samples})
+			}
+			for _, v := range th.Viol {
+				if *prop != "ALL" && v.Prop != *prop {
+					continue
+				}
+				path := ev.ReplayPath(*prop, fmt.Sprintf("%s-twoheight-%s", cname, sanitize(v.Clause)))
+				pmc.WriteReplay(path, pmc.ReplayFile{Property: v.Prop, Config: cname, Violation: v, Engine: "pmc", TwoHeight: true})
+				violations++
+				printed = append(printed, fmt.Sprintf("VIOLATION property=%s replay=%s", *prop, path))
+				fmt.Fprintf(os.Stderr, "  %s two-height: %s %s: %s\n", cname, v.Prop, v.Clause, v.Detail)
+			}
+		}
+	}
 	// witnesses of recorded known findings
 	for _, k := range known {
 		w := fmt.Sprintf("%s/witness/%s-%s.json", ev.Root(), k.Prop, sanitize(k.FP))
@@ -366,6 +401,18 @@ func doReplay(path string, print bool) int {
 	}
 	cfg := config(rf.Config)
 	cfg.Prims = map[string]bool{}
+	if rf.TwoHeight {
+		th := pmc.TwoHeight(cfg.C)
+		for _, v := range th.Viol {
+			if v.Prop == rf.Violation.Prop && v.Clause == rf.Violation.Clause {
+				if print {
+					fmt.Printf("violation: %s %s: %s\nVIOLATION property=%s replay=%s\n", v.Prop, v.Clause, v.Detail, rf.Property, path)
+				}
+				return 1
+			}
+		}
+		return 0
+	}
 	if rf.Live != nil {
 		ok1, why1, log1 := pmc.ReplayLive(cfg, rf)
 		ok2, why2, _ := pmc.ReplayLive(cfg, rf)
